@@ -40,6 +40,15 @@ class PhysGen:
 
     def init_op(self):
         a = ["init", "-v", self.spec, "-l", self.layout]
+        cfg = None
+        if self.layout.startswith("0006"):
+            cfg = {"extensionName": self.layout, "delimiter": ":"}
+        elif self.layout.startswith("0007"):
+            cfg = {"extensionName": self.layout, "delimiter": ":", "tupleSize": 2, "numberOfTuples": 2, "zeroPadding": "left", "reverseObjectRoot": False}
+        if cfg:
+            p = os.path.join(self.sb.dir, "layout-config.json")
+            json.dump(cfg, open(p, "w"))
+            a += ["-c", p]
         return Op("init", a)
 
     def src(self, f):
